@@ -14,7 +14,7 @@ PROFILES = {
     # (string lengths to draw from, max digits of ints, max records)
     "tiny": {"slens": [1, 2, 5], "digits": [1, 2, 5], "seqlens": [1, 2, 5]},
     "normal": {"slens": [1, 2, 3, 5, 8, 13], "digits": [1, 1, 2, 3, 5, 7, 9, 10], "seqlens": [1, 2, 3, 5, 8, 20, 41]},
-    "wide": {"slens": [1, 1, 2, 3, 8, 30, 90], "digits": [1, 1, 2, 4, 9, 12, 15, 18], "seqlens": [1, 2, 3, 9, 40, 79, 80, 81, 161]},
+    "wide": {"slens": [1, 1, 2, 3, 8, 30, 90], "digits": [1, 1, 2, 4, 9, 10, 10, 12, 15, 18], "seqlens": [1, 2, 3, 9, 40, 79, 80, 81, 161]},
 }
 
 
